@@ -368,6 +368,8 @@ def diff_cause(d: semrun.Diff) -> str:
         v = leaf.get(d.keyword)
         if isinstance(v, int) and not isinstance(v, bool) and abs(v) > 2**53:
             return "big_exclusive_bound_through_float"
+    if leaf.get("sibling_on_ref") and d.keyword in CONSTRAINT_KEYWORDS:
+        return "sibling_keyword_on_ref_member"  # a keyword next to anyOf/oneOf and a `$ref` member of its type
     if d.keyword == "pattern" and "|" in d.path and "," in str(leaf.get("pattern", "")):
         return "comma_in_pattern_in_union"
     if d.keyword in semgen.BOUND_KEYS and leaf.get("type") == "integer":
